@@ -1,14 +1,3 @@
 #!/bin/sh
-# copies every sub-agent mutant into /verif/seeded/<id>/ and evaluates it (demo clean/patched, suite, all quick checks)
-for d in /tmp/seed/C*/mutants; do
-  P=$(basename $(dirname $d))
-  for k in 1 2 3; do
-    [ -f $d/m$k.diff ] || continue
-    ID=$P-m$k
-    mkdir -p /verif/seeded/$ID
-    cp $d/m$k.diff /verif/seeded/$ID/patch.diff
-    cp $d/m${k}_demo.py /verif/seeded/$ID/demo.py 2>/dev/null
-    cp $d/m$k.txt /verif/seeded/$ID/notes.txt 2>/dev/null
-  done
-done
-ls /verif/seeded | xargs -P 3 -I{} sh -c '[ -f /verif/seeded/{}/eval.txt ] || /verif/tools/eval_mutant.sh /verif/seeded/{}/patch.diff /verif/seeded/{}/demo.py > /verif/seeded/{}/eval.txt 2>&1'
+# (re-)evaluates every kept seeded change with the current harness: tools/eval_all_seeded.sh [parallelism]
+ls -d /verif/seeded/C*-m* | xargs -n1 basename | xargs -P ${1:-4} -I{} sh -c 'SKIP_SUITE=${SKIP_SUITE:-} /verif/tools/eval_mutant.sh /verif/seeded/{}/patch.diff /verif/seeded/{}/demo.py > /verif/seeded/{}/eval.txt 2>&1'
